@@ -162,6 +162,9 @@ def check_balance(case, ctx):
               "substances:" + case.get("substances", "dict"), "container:" + case.get("container", "list"))
     if case.get("decimal"):
         ctx.label("decimal_composition")
+    if case.get("via"):
+        ctx.label("via:" + case["via"])
+    ctx.label("nspecies:%s" % ("2-6" if an["n"] <= 6 else "7-10" if an["n"] <= 10 else "11-16"))
     if any("0" in c for c in case["species"].values()):
         ctx.label("charged")
     if d == 1:
@@ -334,6 +337,15 @@ SUBCHECKS = [
     SubCheck("textbook", check_balance, strategy=G.textbook_cases(), quick=300, thorough=6000,
              rule="46 literature reactions as formulas, optionally reversed / species moved, dropped, added; "
                   "substances=None / dict / string; 3 modes each"),
+    SubCheck("large", check_balance, strategy=G.large_cases(), quick=200, thorough=4000,
+             rule="7-16 species: x > 0 and placement drawn first, species joined by a forest of pairwise keys (nullity "
+                  "1-3 by construction), keys then mixed / duplicated / one turned into a charge row; planted, one "
+                  "species on the wrong side, one species dropped; plus unions of 2-5 disjoint textbook reactions as "
+                  "formulas; 3 modes each"),
+    SubCheck("fractional", check_balance, strategy=G.fractional_cases(), quick=600, thorough=12000,
+             rule="2-7 formula-like species over O + 1-3 elements, one or two species with one or two decimal "
+                  "subscripts (tenths, 0.05 steps, quarters; A(x)B(1-x) substitution), as composition dicts or as "
+                  "formulas parsed by chempy ('La0.6Sr0.4CoO3'); planted on both sides; 3 modes each"),
     SubCheck("duplicates", check_duplicates, strategy=G.duplicate_cases(), quick=300, thorough=6000,
              rule="allow_duplicates=True, underdetermined=None, 1-2 species on both sides; returned placement judged "
                   "like mode None; refusal requires every placement (3^k) to be infeasible"),
